@@ -30,7 +30,7 @@ from ..simrun import Harness, SimRay, VClock, SimLivelock, SimCrash, SimDisk, cl
 from ..simdisk import Scratch
 
 PROPERTY = "C11"
-LEVEL = dict(quick="exploration", thorough="fault_enumeration")
+LEVEL = "exploration"      # the thorough tier additionally enumerates every crash site of each sampled small history
 BUDGET = dict(quick=45, thorough=900)
 MAX_RUNS = dict(quick=6000, thorough=10 ** 7)
 RULE = ("each run draws a configuration (lattice/point group, grid, mesh, adpt_fac, steering profile), a total iteration "
